@@ -3,6 +3,8 @@ package main
 import (
 	"bytes"
 	"compress/flate"
+	"crypto/sha1"
+	"encoding/base64"
 	"encoding/binary"
 	"fmt"
 	"hash/crc32"
@@ -23,6 +25,8 @@ type zmember struct {
 	Raw     []byte `json:"-"` // explicit content (overrides Size/Seed)
 	Align   int    `json:"-"`
 }
+
+func sha1Of(b []byte) []byte { h := sha1.Sum(b); return h[:] }
 
 func fill(seed, n int) []byte {
 	b := make([]byte, n)
@@ -121,9 +125,39 @@ func buildZip(ms []zmember) []byte {
 }
 
 type zshape struct {
-	ID      string    `json:"id"`
-	Members []zmember `json:"members"`
-	Class   []string  `json:"-"`
+	ID       string    `json:"id"`
+	Members  []zmember `json:"members"`
+	Manifest string    `json:"manifest,omitempty"` // "" = defaultManifest
+	Class    []string  `json:"-"`
+}
+
+const defaultManifest = "Manifest-Version: 1.0\r\nCreated-By: 17 (C05 harness)\r\n\r\n"
+
+// jarBytes: META-INF/MANIFEST.MF first (as the jar tool writes it), then the members.
+func (s zshape) jarBytes() []byte {
+	m := s.Manifest
+	if m == "" {
+		m = defaultManifest
+	}
+	ms := []zmember{{Name: "META-INF/MANIFEST.MF", Deflate: true, Raw: []byte(m)}}
+	return buildZip(append(ms, s.Members...))
+}
+
+// jarManifestFamily: the input manifest in other legal spellings.
+func jarManifestFamily() []zshape {
+	two := []zmember{{Name: "a.txt", Deflate: true, Size: 8192, Seed: 1}, {Name: "b/c.class", Size: 1, Seed: 2}}
+	return []zshape{
+		{ID: "manifest:lf-line-ends", Class: []string{"manifest-lf"}, Members: two, Manifest: "Manifest-Version: 1.0\nCreated-By: x\n\n"},
+		{ID: "manifest:cr-line-ends", Class: []string{"manifest-cr"}, Members: two, Manifest: "Manifest-Version: 1.0\rCreated-By: x\r\r"},
+		{ID: "manifest:no-blank-line-at-end", Class: []string{"manifest-no-final-blank"}, Members: two, Manifest: "Manifest-Version: 1.0\r\nCreated-By: x\r\n"},
+		{ID: "manifest:only-version", Class: []string{"manifest-minimal"}, Members: two, Manifest: "Manifest-Version: 1.0\r\n\r\n"},
+		{ID: "manifest:existing-section-with-attribute", Class: []string{"manifest-existing-section"}, Members: two,
+			Manifest: "Manifest-Version: 1.0\r\n\r\nName: b/c.class\r\nJava-Bean: True\r\n\r\n"},
+		{ID: "manifest:existing-section-other-digest", Class: []string{"manifest-existing-section"}, Members: two,
+			Manifest: "Manifest-Version: 1.0\r\n\r\nName: a.txt\r\nSHA-1-Digest: " + base64.StdEncoding.EncodeToString(sha1Of(fill(1, 8192))) + "\r\n\r\n"},
+		{ID: "manifest:folded-main-attribute", Class: []string{"manifest-folded-main"}, Members: two,
+			Manifest: "Manifest-Version: 1.0\r\nClass-Path: " + strings.Repeat("lib/x.jar ", 6) + "\r\n lib/continued.jar\r\n\r\n"},
+	}
 }
 
 var jarSizes = []int{0, 1, 8192}
@@ -216,7 +250,44 @@ type peShape struct {
 	Lfanew   int    `json:"e_lfanew"`
 	RawSizes []int  `json:"section_raw_sizes"`
 	Overlay  int    `json:"overlay_bytes"`
-	Class    []string `json:"-"`
+	// Linker: the CheckSum field of the input holds the correct checksum of the
+	// unsigned image (what link.exe /RELEASE and every earlier signing leave
+	// there) instead of zero.
+	Linker bool     `json:"checksum_prefilled"`
+	Class  []string `json:"-"`
+}
+
+// peChecksumOf: the documented algorithm (sum of little-endian 16-bit words
+// with end-around carry, CheckSum field taken as zero, plus the file length),
+// used only to give generated inputs a realistic CheckSum field.
+func peChecksumOf(b []byte, field int) uint32 {
+	var sum uint32
+	for i := 0; i < len(b); i += 2 {
+		var w uint32
+		if i >= field && i < field+4 || i+1 >= field && i+1 < field+4 {
+			// bytes of the field count as zero
+			lo, hi := uint32(b[i]), uint32(0)
+			if i+1 < len(b) {
+				hi = uint32(b[i+1])
+			}
+			if i >= field && i < field+4 {
+				lo = 0
+			}
+			if i+1 >= field && i+1 < field+4 {
+				hi = 0
+			}
+			w = lo | hi<<8
+		} else {
+			w = uint32(b[i])
+			if i+1 < len(b) {
+				w |= uint32(b[i+1]) << 8
+			}
+		}
+		sum += w
+		sum = (sum & 0xffff) + (sum >> 16)
+	}
+	sum = (sum & 0xffff) + (sum >> 16)
+	return sum + uint32(len(b))
 }
 
 func align(n, a int) int { return (n + a - 1) / a * a }
@@ -327,6 +398,9 @@ func buildPE(s peShape) []byte {
 	for i := 0; i < s.Overlay; i++ {
 		b = append(b, byte(0xA1+i))
 	}
+	if s.Linker {
+		le.PutUint32(b[o+64:], peChecksumOf(b, o+64))
+	}
 	return b
 }
 
@@ -344,17 +418,24 @@ func peStructureFamily() []peShape {
 					rs = append(rs, peRawSizes[k])
 				}
 				for _, ov := range peOverlays {
-					bits := "pe32"
-					if plus {
-						bits = "pe32+"
+					for _, linker := range []bool{false, true} {
+						bits := "pe32"
+						if plus {
+							bits = "pe32+"
+						}
+						var cls []string
+						if ov%8 != 0 {
+							cls = append(cls, "overlay-not-8-aligned")
+						} else if ov > 0 {
+							cls = append(cls, "overlay-8-aligned")
+						}
+						id := fmt.Sprintf("%s/sections=%v/overlay=%d", bits, rs, ov)
+						if linker {
+							id += "/checksum-prefilled"
+							cls = append(cls, "input-checksum-nonzero")
+						}
+						out = append(out, peShape{ID: id, Plus: plus, Lfanew: 0x80, RawSizes: append([]int{}, rs...), Overlay: ov, Linker: linker, Class: cls})
 					}
-					var cls []string
-					if ov%8 != 0 {
-						cls = append(cls, "overlay-not-8-aligned")
-					} else if ov > 0 {
-						cls = append(cls, "overlay-8-aligned")
-					}
-					out = append(out, peShape{ID: fmt.Sprintf("%s/sections=%v/overlay=%d", bits, rs, ov), Plus: plus, Lfanew: 0x80, RawSizes: append([]int{}, rs...), Overlay: ov, Class: cls})
 				}
 				i := n - 1
 				for i >= 0 {
@@ -393,7 +474,9 @@ func peLfanewFamily() []peShape {
 	}
 	for _, plus := range []bool{false, true} {
 		for _, l := range lf {
-			for _, ov := range []int{0, 1} {
+			for _, ovl := range []int{0, 1, 2, 3} {
+				ov := ovl & 1
+				linker := ovl&2 != 0
 				bits := "pe32"
 				if plus {
 					bits = "pe32+"
@@ -409,13 +492,20 @@ func peLfanewFamily() []peShape {
 						cls = append(cls, "field-ends-at-32k-multiple")
 					}
 				}
-				if l%4 != 0 {
-					cls = append(cls, "e_lfanew-unaligned")
+				if l%2 != 0 {
+					cls = append(cls, "e_lfanew-odd")
+				} else if l%4 != 0 {
+					cls = append(cls, "e_lfanew-2-aligned")
 				}
 				if ov%8 != 0 {
 					cls = append(cls, "overlay-not-8-aligned")
 				}
-				out = append(out, peShape{ID: fmt.Sprintf("%s/lfanew=%d/checksum@%d/overlay=%d", bits, l, co, ov), Plus: plus, Lfanew: l, RawSizes: []int{512}, Overlay: ov, Class: cls})
+				id := fmt.Sprintf("%s/lfanew=%d/checksum@%d/overlay=%d", bits, l, co, ov)
+				if linker {
+					id += "/checksum-prefilled"
+					cls = append(cls, "input-checksum-nonzero")
+				}
+				out = append(out, peShape{ID: id, Plus: plus, Lfanew: l, RawSizes: []int{512}, Overlay: ov, Linker: linker, Class: cls})
 			}
 		}
 	}
